@@ -221,6 +221,19 @@ func ruleNameDispatch(c *eng.Ctx) {
 	for name, tab := range wantTable {
 		key := "font.GetEncoding#" + name
 		ci, ok := labels[name]
+		if !ok && len(labels) == 0 {
+			// not a switch: evaluate the function for this name and see which package variable it returns
+			if rets, decided := returnedGlobalsFor(c.P.Func("font.GetEncoding"), name); decided {
+				bad := ""
+				for _, ret := range rets {
+					if eo, known := objs[ret]; !known || eo.name != name || eo.table != tab {
+						bad = ret
+					}
+				}
+				c.Check(bad == "" && len(rets) > 0, R, key, fd.Decl.Pos(), "-> "+strings.Join(rets, ",")+" / "+tab, fmt.Sprintf("name %s is dispatched to %s, not to the encoding backed by %s", name, bad, tab))
+				continue
+			}
+		}
 		if !ok {
 			c.Viol(R, key, fd.Decl.Pos(), "no case for encoding name "+name+": it silently falls back to the default encoding")
 			continue
@@ -703,4 +716,82 @@ func ruleNarrowShift(c *eng.Ctx) {
 			}
 		})
 	}
+}
+
+// returnedGlobalsFor evaluates fn with its string parameter equal to name and lists the package-level variables whose
+// value the reached returns hand back — directly, or through a handler taken from a read-only table keyed by the name.
+// decided is false when some reached return is not of that form.
+func returnedGlobalsFor(fn *ssa.Function, name string) (globals []string, decided bool) {
+	if fn == nil {
+		return nil, false
+	}
+	var nameP ssa.Value
+	for _, prm := range fn.Params {
+		if b, ok := prm.Type().Underlying().(*types.Basic); ok && b.Kind() == types.String && nameP == nil {
+			nameP = prm
+		}
+	}
+	if nameP == nil {
+		return nil, false
+	}
+	tbl, lk := filterLookupTable(fn, nameP)
+	set := map[string]bool{}
+	decided = true
+	var resolve func(v ssa.Value, depth int)
+	resolve = func(v ssa.Value, depth int) {
+		if depth > 3 {
+			decided = false
+			return
+		}
+		switch x := v.(type) {
+		case *ssa.UnOp:
+			if g, ok := x.X.(*ssa.Global); ok && x.Op == token.MUL {
+				set[g.Name()] = true
+				return
+			}
+		case *ssa.MakeInterface:
+			resolve(x.X, depth)
+			return
+		case *ssa.ChangeInterface:
+			resolve(x.X, depth)
+			return
+		case *ssa.Phi:
+			for _, e := range x.Edges {
+				resolve(e, depth+1)
+			}
+			return
+		case *ssa.Call:
+			g := eng.StaticCallee(x)
+			if g == nil && tbl != nil && valueFromLookup(x.Call.Value, lk) {
+				g = tableHandler(tbl[name])
+			}
+			if g != nil && g.Blocks != nil && len(g.Params) == 0 {
+				for _, r := range eng.Returns(g) {
+					if len(r.Results) == 1 {
+						resolve(r.Results[0], depth+1)
+					} else {
+						decided = false
+					}
+				}
+				return
+			}
+		}
+		decided = false
+	}
+	n := 0
+	eng.StrReach(fn, []string{name}, func(v ssa.Value) bool { return v == nameP }, nil, func(in ssa.Instruction) bool {
+		if r, ok := in.(*ssa.Return); ok && len(r.Results) == 1 {
+			n++
+			resolve(r.Results[0], 0)
+		}
+		return false
+	})
+	if n == 0 {
+		return nil, false
+	}
+	for g := range set {
+		globals = append(globals, g)
+	}
+	sort.Strings(globals)
+	return globals, decided
 }
